@@ -70,6 +70,49 @@ func recvChans(n ast.Node) []ast.Expr {
 	return out
 }
 
+// atomicCalls counts the calls of sync/atomic functions and methods inside n (not descending into
+// func literals): each gets a scheduling point in front of the statement that contains it, so that
+// interleavings around lock-free accesses are explored like those around channel operations.
+func (in *inst) atomicCalls(n ast.Node) int {
+	cnt := 0
+	if n == nil || isNilNode(n) {
+		return 0
+	}
+	ast.Inspect(n, func(x ast.Node) bool {
+		switch u := x.(type) {
+		case *ast.FuncLit:
+			return false
+		case *ast.CallExpr:
+			var id *ast.Ident
+			switch f := u.Fun.(type) {
+			case *ast.SelectorExpr:
+				id = f.Sel
+			case *ast.Ident:
+				id = f
+			}
+			if id != nil {
+				if fn, ok := in.pkg.TypesInfo.Uses[id].(*types.Func); ok && fn.Pkg() != nil && fn.Pkg().Path() == "sync/atomic" {
+					cnt++
+				}
+			}
+		}
+		return true
+	})
+	return cnt
+}
+
+// pres: the scheduling points to hoist in front of a statement for the receives and atomic operations in n
+func (in *inst) pres(n ast.Node) []ast.Stmt {
+	var pre []ast.Stmt
+	for _, c := range recvChans(n) {
+		pre = append(pre, stmt(call("Pre", kind("KRecv"), c)))
+	}
+	for i := in.atomicCalls(n); i > 0; i-- {
+		pre = append(pre, stmt(call("Pre", kind("KYield"), &ast.BasicLit{Kind: token.STRING, Value: `"atomic"`})))
+	}
+	return pre
+}
+
 func (in *inst) isMap(e ast.Expr) bool {
 	t := in.pkg.TypesInfo.TypeOf(e)
 	if t == nil {
@@ -138,14 +181,10 @@ func (in *inst) rewriteStmt(s ast.Stmt) []ast.Stmt {
 	case *ast.IfStmt:
 		var pre []ast.Stmt
 		if st.Init != nil {
-			for _, c := range recvChans(st.Init) {
-				pre = append(pre, stmt(call("Pre", kind("KRecv"), c)))
-			}
+			pre = append(pre, in.pres(st.Init)...)
 			in.funcLits(st.Init)
 		}
-		for _, c := range recvChans(st.Cond) {
-			pre = append(pre, stmt(call("Pre", kind("KRecv"), c)))
-		}
+		pre = append(pre, in.pres(st.Cond)...)
 		in.funcLits(st.Cond)
 		in.body(st.Body)
 		if st.Else != nil {
@@ -166,11 +205,15 @@ func (in *inst) rewriteStmt(s ast.Stmt) []ast.Stmt {
 		}
 		var pre []ast.Stmt
 		if st.Init != nil {
-			for _, c := range recvChans(st.Init) {
-				pre = append(pre, stmt(call("Pre", kind("KRecv"), c)))
-			}
+			pre = append(pre, in.pres(st.Init)...)
 		}
 		in.body(st.Body)
+		if k := in.atomicCalls(st.Cond) + in.atomicCalls(st.Post); k > 0 {
+			// a loop that polls an atomic: one scheduling point before the loop and one per iteration
+			pre = append(pre, stmt(call("Pre", kind("KYield"), &ast.BasicLit{Kind: token.STRING, Value: `"atomic"`})))
+			// "spin" = I am waiting (engine/sched.SpinTag): lowest priority, free to switch away from
+			st.Body.List = append([]ast.Stmt{stmt(call("Pre", kind("KYield"), &ast.BasicLit{Kind: token.STRING, Value: `"spin"`}))}, st.Body.List...)
+		}
 		if *tick {
 			st.Body.List = append([]ast.Stmt{stmt(call("Tick"))}, st.Body.List...)
 		}
@@ -195,9 +238,7 @@ func (in *inst) rewriteStmt(s ast.Stmt) []ast.Stmt {
 		var pre []ast.Stmt
 		for _, n := range []ast.Node{st.Init, st.Tag} {
 			if n != nil && !isNilNode(n) {
-				for _, c := range recvChans(n) {
-					pre = append(pre, stmt(call("Pre", kind("KRecv"), c)))
-				}
+				pre = append(pre, in.pres(n)...)
 				in.funcLits(n)
 			}
 		}
@@ -220,9 +261,7 @@ func (in *inst) rewriteStmt(s ast.Stmt) []ast.Stmt {
 	case *ast.SendStmt:
 		in.funcLits(st.Value)
 		pre := []ast.Stmt{}
-		for _, c := range recvChans(st.Value) {
-			pre = append(pre, stmt(call("Pre", kind("KRecv"), c)))
-		}
+		pre = append(pre, in.pres(st.Value)...)
 		pre = append(pre, stmt(call("Pre", kind("KSend"), st.Chan)))
 		return append(pre, st)
 	case *ast.GoStmt:
@@ -241,9 +280,7 @@ func (in *inst) rewriteStmt(s ast.Stmt) []ast.Stmt {
 	}
 	// generic statement: hoist Pre for receives, instrument nested func literals
 	var pre []ast.Stmt
-	for _, c := range recvChans(s) {
-		pre = append(pre, stmt(call("Pre", kind("KRecv"), c)))
-	}
+	pre = append(pre, in.pres(s)...)
 	in.funcLits(s)
 	return append(pre, s)
 }
